@@ -31,6 +31,46 @@ def gen_knobs(rng, tier="quick", line=True, max_steps=60000):
     return k
 
 
+RARE_PATHS = {
+    # feature of the generated program -> functions of the rarely executed path it exercises
+    "bad_arg": ["_on_queue_feeder_error", "_feed", "terminate_broken"],
+    "del": ["is_shutting_down", "weakref_cb", "process_result_item"],
+    "reusable": ["_resize", "_wait_job_completion", "get_reusable_executor", "_adjust_process_count"],
+    "cancel": ["add_call_item_to_queue", "terminate_broken", "flag_executor_shutting_down"],
+    "timeout": ["process_result_item", "_adjust_process_count", "_ensure_executor_running", "submit"],
+    "death": ["terminate_broken", "wait_result_broken_or_wakeup", "kill_workers", "submit"],
+    "shutdown": ["shutdown", "flag_executor_shutting_down", "shutdown_workers", "join_executor_internals", "run"],
+}
+
+
+def focus_hot(rng, knobs, threads, p=0.35):
+    """with probability p concentrate line pre-emption on the rare paths this program exercises."""
+    if rng.random() >= p:
+        return knobs
+    feats = set()
+    for ops in threads:
+        for o in ops:
+            if o["op"] == "del":
+                feats.add("del")
+            if o["op"] == "reusable":
+                feats.add("reusable")
+            if o["op"] == "cancel":
+                feats.add("cancel")
+            if o["op"] in ("shutdown", "with"):
+                feats.add("shutdown")
+            if o["op"] == "create" and (o["kw"].get("timeout") is not None and o["kw"]["timeout"] < 2):
+                feats.add("timeout")
+            if o["op"] == "submit":
+                if any(a[0] in ("bad_reduce",) for a in o.get("args", [])):
+                    feats.add("bad_arg")
+                if o["task"].get("kind") in ("exit", "kill", "bad_result_rebuild"):
+                    feats.add("death")
+    cands = sorted(set(f for k in feats for f in RARE_PATHS[k]))
+    if cands:
+        knobs["hot"] = {f: rng.choice([0.2, 0.5]) for f in rng.sample(cands, min(len(cands), rng.randint(1, 2)))}
+    return knobs
+
+
 def gen_model(rng):
     return dict(cpu=rng.choice([1, 2, 2, 4]), psutil=rng.random() < 0.8,
                 boot=rng.choice([0.005, 0.02, 0.02, 0.1]))
